@@ -2,6 +2,7 @@ package lncrun
 
 import (
 	"sort"
+	"strings"
 	"sync"
 	"sync/atomic"
 
@@ -62,11 +63,14 @@ func (c *Conn) GbnID() any {
 // LinkEvents returns the link-tap records of every transport connection this
 // session handed out (client side "c", server side "s"), merged in their
 // global order, as trace events:
-// {"ev": "gtx"|"grx", "side": "c"|"s", "k": kind, "seq", "len", "crc"}.
+// {"ev": "gtx"|"grx", "side": "c"|"s", "st": stream name, "k": kind, "seq",
+// "len", "crc"}: st is the stream the connection sends to (gtx) or receives
+// from (grx), by the stream ids the connection itself reports.
 func (s *Session) LinkEvents() []trace.Event {
 	type tagged struct {
 		linkRec
 		side string
+		st   string
 	}
 	var all []tagged
 	s.mu.Lock()
@@ -88,8 +92,17 @@ func (s *Session) LinkEvents() []trace.Event {
 				continue
 			}
 			seen[id] = true
+			// the streams this connection receives from / sends to
+			rs, ws := "?", "?"
+			if parts := strings.SplitN(s.rawSid(c.Raw), "/", 2); len(parts) == 2 {
+				rs, ws = parts[0], parts[1]
+			}
 			for _, r := range linkBy[id] {
-				all = append(all, tagged{r, tag})
+				st := ws
+				if r.ev == "rx" {
+					st = rs
+				}
+				all = append(all, tagged{r, tag, st})
 			}
 		}
 	}
@@ -101,8 +114,8 @@ func (s *Session) LinkEvents() []trace.Event {
 		if r.ev == "rx" {
 			ev = "grx"
 		}
-		out = append(out, trace.Event{"ev": ev, "side": r.side, "k": r.kind, "seq": r.seq,
-			"len": r.ln, "crc": r.crc})
+		out = append(out, trace.Event{"ev": ev, "side": r.side, "st": r.st, "k": r.kind,
+			"seq": r.seq, "len": r.ln, "crc": r.crc})
 	}
 	return out
 }
